@@ -1,5 +1,5 @@
 (* C18 - tar detection tracks header checksum validity.  K1 (Gentoo gpkg names) is an explicit hypothesis. *)
-From Verif Require Import Base.Bytes Model.Tar Spec.SpecTar Proofs.TarP.
+From Verif Require Import Base.Bytes Model.Types Model.Tar Model.Detect Gen.TreeData Spec.SpecTar Proofs.TarP.
 
 (* the arithmetic heart: after corrupting one byte outside the checksum field the recorded sum (unsigned or
    signed convention) equals neither recomputed sum *)
@@ -25,6 +25,19 @@ Theorem C18_tar_corruption :
     tar_det (upd h p v ++ rest) = false.
 Proof. exact tar_corruption. Qed.
 Print Assumptions C18_tar_corruption.
+
+(* the formats that take precedence over tar (the property's "higher-priority signature") are exactly the root
+   formats listed before it in the specification: tar sits right after exe, elf and ar *)
+Definition before_tar_spec : list string :=
+  ["xpm"; "sevenZ"; "zip"; "pdf"; "fdf"; "ole"; "ps"; "psd"; "p7s"; "ogg"; "png"; "jpg"; "jxl"; "jp2"; "jpx"; "jpm"; "jxs";
+   "gif"; "webp"; "exe"; "elf"; "ar"]%string.
+Fixpoint take_until (v : string) (l : list string) : list string :=
+  match l with [] => [] | x :: l' => if String.eqb x v then [] else x :: take_until v l' end.
+Definition root_kid_vars : list string :=
+  map (fun i => match nth_error nodes i with Some n => n_var n | None => ""%string end) root_kids.
+Theorem C18_tar_priority : take_until "tar"%string root_kid_vars = before_tar_spec.
+Proof. vm_compute. reflexivity. Qed.
+Print Assumptions C18_tar_priority.
 
 (* K1: the known finding, on the model *)
 Theorem C18_gpkg_refuted :
